@@ -15,6 +15,7 @@ enum Act {
   ForgetSlot(usize),
   CheckSlot(usize),
   FreeGiven(u32, u32, usize),
+  TouchGiven(u32, u32),
   Discard,
 }
 
@@ -209,6 +210,10 @@ fn run_prog(arena: &Arena, tid: usize, prog: &[Act], pat: u8, dofs: u32, cap: u3
         release(tid, *o);
         unsafe { arena.dealloc(*o, *s) };
       }
+      Act::TouchGiven(o, s) => {
+        gate(None); // client::fill_range
+        unsafe { std::ptr::write_bytes(base.add(*o as usize), pat, *s as usize) };
+      }
       Act::Discard => {
         let _ = arena.discard_freelist();
       }
@@ -243,6 +248,7 @@ fn parse(path: &str) -> Input {
             "forget_slot" => Act::ForgetSlot(p[1].parse().unwrap()),
             "check_slot" => Act::CheckSlot(p[1].parse().unwrap()),
             "free_given" => Act::FreeGiven(p[1].parse().unwrap(), p[2].parse().unwrap(), p[3].parse().unwrap()),
+            "touch_given" => Act::TouchGiven(p[1].parse().unwrap(), p[2].parse().unwrap()),
             "discard" => Act::Discard,
             x => panic!("unknown action {x}"),
           });
